@@ -256,10 +256,10 @@ def run_case(case, name):
         t0 = time.time()
         # ENDING is transient: the woken worker turns it into ENDED
         while ((sim.run_state.name not in QUIET or sim.replication_state.name == "ENDING" or not worker_idle())
-               and time.time() - t0 < 4.0):
+               and time.time() - t0 < 2.5):
             time.sleep(0.0005)
         if sim.run_state.name not in QUIET or sim.replication_state.name == "ENDING":
-            rec["notes"].append("not quiescent after 4 s: " + sim.run_state.name + "/" + sim.replication_state.name)
+            rec["notes"].append("not quiescent after 2.5 s: " + sim.run_state.name + "/" + sim.replication_state.name)
             return False
         return True
 
